@@ -47,8 +47,12 @@ def gen_shape(rng):
             w = rng.choice(WRAPPERS)
             refs.append({"name": "r%d" % j, "target": rng.randrange(n), "wrapper": w, "maxlen2": w == "list" and rng.random() < 0.4})
         # peer: a @property field whose getter return annotation AND setter parameter annotation name a (late or early) helper class
-        classes.append({"refs": refs, "leaf_ge0": rng.random() < 0.4, "amt": rng.random() < 0.35, "peer": rng.random() < 0.2})
-    return {"classes": classes, "fn": {"arg": rng.randrange(n), "ret": rng.randrange(n), "star": rng.choice([None, rng.randrange(n)])}}
+        classes.append({"refs": refs, "leaf_ge0": rng.random() < 0.4, "amt": rng.random() < 0.35, "peer": rng.random() < 0.2,
+                        # lt: Optional['LateTop'] where LateTop is a MODULE-level class defined after everything else (also after a local scope)
+                        "lt": rng.random() < 0.25})
+    return {"classes": classes, "fn": {"arg": rng.randrange(n), "ret": rng.randrange(n), "star": rng.choice([None, rng.randrange(n)])},
+            # a subclass of one class of the system (inherits its late references), possibly used before its base
+            "sub_of": rng.randrange(n) if rng.random() < 0.3 else None}
 
 
 def gen_variant(rng, shape):
@@ -63,7 +67,8 @@ def gen_variant(rng, shape):
     use = list(range(n)) + ["fn"]
     rng.shuffle(use)
     return {"order": order, "style": style, "spell": spell, "use": use, "amt_late": rng.random() < 0.7, "fn_first": rng.random() < 0.4,
-            "peer_late": rng.random() < 0.7, "peer_spell": rng.choice(["name", "name", "direct"])}
+            "peer_late": rng.random() < 0.7, "peer_spell": rng.choice(["name", "name", "direct"]),
+            "sub_first": rng.random() < 0.6, "gen_spell": rng.choice(["direct", "inner", "whole", "whole"])}
 
 
 def ann_src(wrapper, target_expr_direct, target_name, spelling):
@@ -136,6 +141,10 @@ def source(shape, variant, uid):
             if variant["amt_late"] and variant["style"] != "local":
                 late = True
             nondirect = True
+        if c.get("lt"):
+            lines.append(f"{ind}    lt: Optional['LateTop{uid}'] = None")
+            late = True
+            nondirect = True
         if c.get("peer"):
             pa = peer if (peer_early and variant.get("peer_spell") == "direct") or variant["style"] == "local" else repr(peer)
             lines += [f"{ind}    @property", f"{ind}    def peer(self) -> {pa}:", f"{ind}        return self._peer",
@@ -163,10 +172,37 @@ def source(shape, variant, uid):
         late = True
     else:
         lines += fn_lines
+    extra_names = ["fn", "gen"]
+    if shape.get("sub_of") is not None:
+        b_ = names[shape["sub_of"]]
+        lines += [f"{ind}class {b_}Sub({b_}):", f"{ind}    extra: int = 0", ""]
+        extra_names.append(b_ + "Sub")
+    r_ = f["ret"]
+    gsp = variant.get("gen_spell", "inner")
     if variant["style"] == "local":
-        lines.append("    return {" + ", ".join(f"{nm!r}: {nm}" for nm in names) + ", 'fn': fn}")
+        gann = f"typing.Iterator[{names[r_]}]"
+    elif gsp == "whole":
+        gann = repr(f"typing.Iterator[{names[r_]}]")
+        nondirect = True
+    elif gsp == "direct":
+        gann = f"typing.Iterator[{names[r_]}]"
+    else:
+        gann = f"typing.Iterator[{names[r_]!r}]"
+        nondirect = True
+    ypeer = ", peer=dict(m=1)" if shape["classes"][r_].get("peer") else ""
+    gen_lines = [f"{ind}@parse", f"{ind}def gen(k: int) -> {gann}:", f"{ind}    for i in range(k):", f"{ind}        yield dict(v=str(i){ypeer})", ""]
+    if variant.get("fn_first") and variant["style"] != "local" and gsp != "direct":
+        # declared before the classes exist: the return annotation is a late reference
+        at = next(k for k, l in enumerate(lines) if l.startswith("@parse") or l.startswith("class "))
+        lines[at:at] = gen_lines
+    else:
+        lines += gen_lines
+    if variant["style"] == "local":
+        lines.append("    return {" + ", ".join(f"{nm!r}: {nm}" for nm in names) + ", " + ", ".join(f"{nm!r}: {nm}" for nm in extra_names) + "}")
         lines.append("")
         lines.append("globals().update(make())")
+    if any(c.get("lt") for c in shape["classes"]):
+        lines += ["", f"class LateTop{uid}(Schema):", "    m: int", ""]
     return "\n".join(lines), names, (late or variant["style"] in ("future",), nondirect or variant["style"] != "module")
 
 
@@ -190,6 +226,16 @@ def gen_data(rng, shape, i, depth, bad_at=None, path=()):
             exp["amt"] = int(a)
         else:
             exp["amt"] = 5
+    if c.get("lt"):
+        if rng.random() < 0.6:
+            m = rng.choice(["3", 4, "x"] if rng.random() < 0.15 else ["3", 4])
+            data["lt"] = {"m": m}
+            if m == "x":
+                bad = True
+            else:
+                exp["lt"] = {"m": int(m)}
+        else:
+            exp["lt"] = None
     if c.get("peer"):
         # a property with a setter and no default is a required field
         m = rng.choice(["3", 4, "0", "x"] if rng.random() < 0.15 else ["3", 4, "0"])
@@ -355,14 +401,23 @@ def run_case(case, ctx):
             # first uses in the chosen order (a trivial valid parse of each class / a call of fn)
             problems = None
             f = shape["fn"]
+            sub_of = shape.get("sub_of")
+            via_sub = sub_of is not None and variant.get("sub_first")
+
+            def cls_for(ci):
+                # a subclass (inherits every late reference) stands in for its base, and is used BEFORE the base
+                return ns[names[ci] + "Sub"] if (via_sub and ci == sub_of) else ns[names[ci]]
+
             for u in variant["use"]:
                 if u == "fn":
                     continue
-                run(lambda: ns[names[u]](**arg_for0(shape, u)))
+                run(lambda: cls_for(u)(**arg_for0(shape, u)))
             for rep in (1, 2):
                 for ci, data, exp in script:
-                    out = run(lambda: norm(dict(ns[names[ci]].__from__(_copy(data)))))
+                    out = run(lambda: norm(dict(cls_for(ci).__from__(_copy(data)))))
                     ctx.count("parses")
+                    if via_sub and ci == sub_of and exp != ("bad",):
+                        exp = dict(exp, extra=0)
                     ok_exp = exp != ("bad",)
                     if out.kind not in ("ok", "parse"):
                         problems = ("escape", ci, data, exp, out, rep)
@@ -384,6 +439,13 @@ def run_case(case, ctx):
                 exp_v = 7 if f["ret"] != f["arg"] else 5
                 if not o2.ok or o2.value.get("v") != exp_v:
                     problems = ("function", f["arg"], {"v": "5"}, {"v": exp_v}, o2, 1)
+            if not problems:
+                # the generator: every yielded mapping is converted to the class named by the return annotation
+                o3 = run(lambda: [norm(dict(x)) if isinstance(x, dict) else ("not-converted", repr(x)[:60]) for x in ns["gen"](2)])
+                ctx.count("parses")
+                exp3 = [bare_exp(shape, f["ret"], 0), bare_exp(shape, f["ret"], 1)]
+                if not o3.ok or o3.value != norm(exp3) or not all(isinstance(x, ns[names[f["ret"]]]) for x in ns["gen"](1)):
+                    problems = ("generator", "gen", 2, exp3, o3, 1)
             if problems:
                 kind, ci, data, exp, out, rep = problems
                 mech = mechanism(shape, variant, names, out)
@@ -406,6 +468,21 @@ def run_case(case, ctx):
                         pbase.__parsers__.pop(v, None)
             except Exception:
                 pass
+
+
+def bare_exp(shape, ci, v):
+    """what {'v': str(v)} (+ the required peer) parses to for class ci"""
+    c = shape["classes"][ci]
+    e = {"v": v}
+    if c["amt"]:
+        e["amt"] = 5
+    if c.get("lt"):
+        e["lt"] = None
+    if c.get("peer"):
+        e["peer"] = {"m": 1}
+    for r in c["refs"]:
+        e[r["name"]] = {"plain": None, "opt": None, "list": [], "dict": {}, "union": None, "tuple": None, "oplist": [], "opdict": {}}[r["wrapper"]]
+    return e
 
 
 def arg_for0(shape, ci):
